@@ -940,6 +940,8 @@ func (p *Proc) execGo(st *State, x *ast.GoStmt) {
 			p.eval(ec, a)
 		}
 		p.ctx.notes["go statements: the spawned call runs later under its own contract; only argument evaluation happens here"] = true
+		cnt := p.heapGet(st, "G:$spawncount", SInt)
+		p.heapSet(st, "G:$spawncount", Add(cnt, IntLit(1)))
 		return
 	}
 	// go cb(...): a callback parameter invoked on another goroutine counts as an invocation;
